@@ -132,22 +132,14 @@ Proof.
   - eexists. split; [reflexivity|]. cbn [mk_index fi_data fi_t0]. split; [reflexivity|]. intros _ Ht. destruct (fi_t0 fi); [reflexivity|congruence].
 Qed.
 
-(* ---------------------------------------------------------------- source discovery, named *)
-Definition discovered (c : cfg) (f : file) (srcs : option (list Z)) : list Z :=
-  match populate fixed c f (initial (index_of_file f (c_max_bytes c)) srcs []) with Ok r => r_avail r | Err _ => [] end.
-Definition effective_srcs (c : cfg) (f : file) (srcs : option (list Z)) : option (list Z) :=
-  match srcs with
-  | None => None
-  | Some ids => Some (if set_eqb (discovered c f srcs) ids then ids else filter (fun x => memZ x (discovered c f srcs)) ids)
-  end.
-
+(* ---------------------------------------------------------------- source discovery *)
 Lemma populate_ok c f srcs :
   wf_file f ->
   exists r, populate fixed c f (initial (index_of_file f (c_max_bytes c)) srcs []) = Ok r /\ WF r /\
             r_orig r = index_of_file f (c_max_bytes c) /\ r_index r = r_orig r /\ r_next r = 0 /\ r_last r = -1 /\
-            r_srcs r = srcs /\ r_avail r = discovered c f srcs.
+            r_srcs r = srcs.
 Proof.
-  intros Hwf. unfold discovered, populate.
+  intros Hwf. unfold populate.
   pose proof (wf_initial f (c_max_bytes c) srcs [] Hwf) as Hw0.
   set (r0 := initial (index_of_file f (c_max_bytes c)) srcs []) in *.
   destruct (populate_types_ok c f (uniq_sorted (map e_type (fi_data (r_index r0)))) r0 [] Hw0 eq_refl) as [rp [acc [Ep [Hwp [Hip [Hop Hsp]]]]]].
@@ -163,24 +155,24 @@ Lemma construct_general c f srcs types R :
   let orig := index_of_file f (c_max_bytes c) in
   let w := model_window (fi_t0 orig) R in
   exists r, construct fixed c f srcs types R = Ok r /\
-            r_next r = 0 /\ r_srcs r = effective_srcs c f srcs /\
+            r_next r = 0 /\ r_srcs r = srcs /\
             fi_data (r_index r) = filter (tyf (norm_types types)) (filter_pos (window_ok (fst w) (snd w)) (fi_data orig)).
 Proof.
   intros Hwf Hb orig w. unfold construct. fold orig.
-  destruct (populate_ok c f srcs Hwf) as [r1 [Ep [Hw1 [Fo [Fi [Fn [Fl [Fs Fa]]]]]]]]. fold orig in Ep, Fo.
+  destruct (populate_ok c f srcs Hwf) as [r1 [Ep [Hw1 [Fo [Fi [Fn [Fl Fs]]]]]]]. fold orig in Ep, Fo.
   unfold initial in Ep. rewrite Ep. cbn [bind].
   destruct (index_of_file_props f (c_max_bytes c) Hwf) as [Oinc [Onn Oso]]. fold orig in Oinc, Onn, Oso. cbv zeta in Oinc, Onn, Oso.
   (* 1: key None + source ids *)
-  assert (STEP : forall r s, r_last r = -1 -> filter_in_place fixed r KNone false s = (set_next (apply_source_ids r s) 0, Ok tt)).
+  assert (STEP : forall r s, r_last r = -1 -> filter_in_place fixed r KNone false s = (set_next (apply_source_ids fixed r s) 0, Ok tt)).
   { intros r s Hl. unfold filter_in_place. cbn [prev_offset fx_last_off fixed getitem].
-    replace (r_index (apply_source_ids r s)) with (r_index r) by (destruct s; reflexivity).
-    replace (set_index (apply_source_ids r s) (r_index r)) with (apply_source_ids r s) by (destruct s, r; reflexivity).
+    replace (r_index (apply_source_ids fixed r s)) with (r_index r) by (destruct s; reflexivity).
+    replace (set_index (apply_source_ids fixed r s) (r_index r)) with (apply_source_ids fixed r s) by (destruct s, r; reflexivity).
     rewrite Hl. unfold relocate. destruct (zlen (fi_data (r_index r)) =? 0); reflexivity. }
   rewrite (STEP r1 (r_srcs r1) Fl).
-  set (r2 := set_next (apply_source_ids r1 (r_srcs r1)) 0).
-  assert (F2 : r_index r2 = orig /\ r_last r2 = -1 /\ r_orig r2 = orig /\ r_srcs r2 = effective_srcs c f srcs).
-  { subst r2. rewrite Fs. unfold effective_srcs. destruct srcs; cbn [apply_source_ids set_next set_cursor set_srcs r_index r_last r_orig r_srcs];
-      rewrite ?Fa, ?Fi, ?Fo, ?Fl, ?Fs; repeat split; reflexivity. }
+  set (r2 := set_next (apply_source_ids fixed r1 (r_srcs r1)) 0).
+  assert (F2 : r_index r2 = orig /\ r_last r2 = -1 /\ r_orig r2 = orig /\ r_srcs r2 = srcs).
+  { subst r2. rewrite Fs. destruct srcs; cbn [apply_source_ids fx_srcs_as_requested fixed set_next set_cursor set_srcs r_index r_last r_orig r_srcs];
+      rewrite ?Fi, ?Fo, ?Fl, ?Fs; repeat split; reflexivity. }
   destruct F2 as [Fi2 [Fl2 [Fo2 Fs2]]].
   (* 2: the type key, applied to the full index *)
   destruct (getitem_types orig (norm_types types)) as [it [Eit [Dit Tit]]].
@@ -370,14 +362,12 @@ Qed.
 (* hypotheses of the main theorem *)
 Definition range_has_t0 (c : cfg) (f : file) (R : option trange) : Prop :=
   bound_free R \/ fi_t0 (index_of_file f (c_max_bytes c)) <> None.
-Definition discovery_complete (c : cfg) (f : file) (srcs : option (list Z)) : Prop :=
-  forall m, In m (f_msgs f) -> bytes_ok (c_max_bytes c) m = true -> src_ok (effective_srcs c f srcs) m = src_ok srcs m.
 
 Theorem read_is_filter_thm c f srcs types R :
-  wf_file f -> range_has_t0 c f R -> discovery_complete (with_range c R) f srcs ->
+  wf_file f -> range_has_t0 c f R ->
   read_log fixed c f srcs types R = Ok (spec_read c f srcs types R).
 Proof.
-  intros Hwf Ht Hd. unfold read_log. set (c' := with_range c R).
+  intros Hwf Ht. unfold read_log. set (c' := with_range c R).
   assert (Hmb : c_max_bytes c' = c_max_bytes c) by reflexivity.
   assert (Ht' : bound_free R \/ fi_t0 (index_of_file f (c_max_bytes c')) <> None) by (rewrite Hmb; exact Ht).
   destruct (construct_general c' f srcs types R Hwf Ht') as [r [Ec [Hn [Hs Hdata]]]]. rewrite Ec. cbn [bind].
@@ -386,9 +376,6 @@ Proof.
   rewrite (window_agrees f (c_max_bytes c) R Hwf Ht).
   destruct Hwf as [Hsort [Htimes Hok]].
   cbn [index_of_file mk_index fi_data]. rewrite <- Hmb. unfold filter_pos.
-  rewrite (core_pass c' (effective_srcs c' f srcs) (norm_types types) (spec_window (f_msgs f) R) f (f_msgs f) [] [] 0 eq_refl eq_refl eq_refl Hsort Hok).
-  unfold spec_read. rewrite (spec_select_cfg _ c' c) by reflexivity.
-  apply spec_select_ext. intros pre m Hin. unfold keep. rewrite Hmb.
-  destruct (bytes_ok (c_max_bytes c) m) eqn:Eb; [|rewrite !andb_false_r; reflexivity].
-  fold c' in Hd. rewrite (Hd m Hin); [reflexivity|exact Eb].
+  rewrite (core_pass c' srcs (norm_types types) (spec_window (f_msgs f) R) f (f_msgs f) [] [] 0 eq_refl eq_refl eq_refl Hsort Hok).
+  unfold spec_read. rewrite (spec_select_cfg _ c' c) by reflexivity. reflexivity.
 Qed.
